@@ -71,6 +71,18 @@ class LoopMixin:
                     return (lambda s: lo - s.heap.get(cur_key) > hi,
                             lambda s: SInt(lo - s.heap.get(cur_key)),
                             lambda s: lo - hi - s.heap.get(cur_key))
+        if isinstance(itv, SRef) and itv.kind.startswith("list:") and isinstance(node.iter, ast.Call) and st.old is not None \
+                and not self.feasible(st, itv.t < st.old[2]):
+            # a list created during this activation and held only by the loop's iterator (the iterable is a call
+            # expression, the list is provably fresh): nobody else can reach it, so iteration is over a snapshot.
+            # Assumes a repository function returning a fresh list does not retain it elsewhere.
+            self.trusted_used.add("fresh temporary lists returned by a call and iterated directly are not retained elsewhere")
+            n0, e0 = self.list_len(st, itv), self.list_elems(st, itv)
+            ek = itv.kind[5:]
+            st.ghost.setdefault("snap", {})[id(node)] = SSnap(n0, e0, ek)
+            return (lambda s: s.heap.get(cur_key) < n0,
+                    lambda s: self._wf(s, from_sort(ek, z3.Select(e0, s.heap.get(cur_key)))),
+                    lambda s: n0 - s.heap.get(cur_key))
         if isinstance(itv, SRef) and itv.kind.startswith("list:"):
             return (lambda s: s.heap.get(cur_key) < self.list_len(s, itv),
                     lambda s: self._wf(s, self.list_get(s, itv, s.heap.get(cur_key))),
@@ -149,6 +161,8 @@ class LoopMixin:
                     src = itv
                     if isinstance(itv, SFunc) and itv.what == "builtin_iter" and itv.payload[0] == "enumerate":
                         src = itv.payload[1][0]
+                    if id(n) in s.ghost.get("snap", {}):
+                        src = s.ghost["snap"][id(n)]
                     s.env[_lc["iter_name"]] = src
             except EngineError:
                 pass
@@ -224,6 +238,9 @@ class LoopMixin:
         # 3. havoc, assume invariant
         s0 = st.copy()
         entry_heap = st.heap.snapshot()
+        if "*" in written:
+            s0.heap.havoc_all({kx for kx in s0.heap.comps if kx[0] == "g"})
+            del written["*"]
         for key, how in written.items():
             s0.heap.havoc(key)
             if how != "whole":
@@ -405,4 +422,6 @@ class LoopMixin:
                             cur.append(ix)
         if cursor_key is not None:
             written[cursor_key] = "whole"
+        if any(s2.heap.epoch > base.epoch for (s2, kind, p) in outs):
+            written["*"] = "whole"
         return written
